@@ -397,8 +397,10 @@ def t_len(t):
         return t_len(t[1])
     if op == "slice":
         return t[3] - t[2]
-    if op in ("spkeys", "spcounts"):
+    if op in ("spkeys", "spcounts", "hmkeys"):
         return Poly.atom(("nuniq", t[1]))
+    if op == "dedup":
+        return Poly.atom(("ndedup", t[1]))
     if op == "zero":
         return Poly.atom(("nzero", t[1]))
     if op == "inj":
@@ -479,7 +481,7 @@ def term_facts(st, t):
     """Side facts that hold for atoms mentioned by a term (added lazily, idempotent)."""
     # nuniq(x) <= len(x); nzero(x) <= len(x); ncomp <= n
     op = t[0]
-    if op in ("spkeys", "spcounts"):
+    if op in ("spkeys", "spcounts", "hmkeys"):
         st.add_ge(t_len(t[1]) - Poly.atom(("nuniq", t[1])))
     elif op == "zero":
         st.add_ge(t_len(t[1]) - Poly.atom(("nzero", t[1])))
@@ -511,7 +513,7 @@ def ubs(st, t):
         out.append(t_len(t[1]) + 1)
     elif op == "spcounts":
         out.append(t_len(t[1]) + 1)
-    elif op == "spkeys":
+    elif op in ("spkeys", "hmkeys", "dedup"):
         out += ubs(st, t[1])
     elif op == "zero":
         out.append(t_len(t[1]))
@@ -577,7 +579,7 @@ def prove_bound(st, t, B, depth=0):
     if op in ("repeat",):
         if prove_bound(st, t[2], B, depth + 1):
             return True
-    if op in ("slice", "sortby", "ssa", "sub", "spkeys", "scatter"):
+    if op in ("slice", "sortby", "ssa", "sub", "spkeys", "hmkeys", "dedup", "scatter"):
         # scatter: every position is written (documented: the index map is surjective) or holds
         # a filler that is itself an element of the scattered array
         if prove_bound(st, t[1], B, depth + 1):
@@ -877,6 +879,9 @@ def _degenerate(st, r):
             return EMPTY
         if op == "shift" and st.eq(as_poly(r[1]), 0):
             return r[2]
+        if op == "gather" and r[2][0] == "spkeys" and r[1][0] == "bincount" and r[1][1] == r[2][1]:
+            # the number of occurrences of each distinct value, in ascending order of the values
+            return ("spcounts", r[2][1])
         if op == "bincount" and _known_empty(st, r[1]):
             return ("fill", Poly.const(0), as_poly(r[2]))
         if op == "bincount" and r[1][0] == "concat" and len(r[1]) >= 3:
